@@ -207,7 +207,8 @@ PROPS["C20"] = dict(
           "SDP media section without formats} (inapplicable pairs dropped) with camera authentication none/Basic/Digest, plus success scripts "
           "(camera disconnects after 150 packets) per authentication kind; requester = HTTP-FLV or RTSP play; NetTimeout overridden to 1.2 s; "
           "after every script a second request must reach the camera again; plus 2-8 simultaneous first requests with seeded delays at the "
-          "GetOrCreate/Regist hook points. Distinct by script name"),
+          "GetOrCreate/Regist hook points. Distinct by script name"
+          " Success scripts also use an exact route whose camera URL carries a query string; the fake camera accepts Digest credentials only when the uri directive equals the Request-URI. Concurrent first requests: invariant 'open camera connections <= pull streams that are registered, have a consumer or had one while live', plus a forced ordering in which the first registered pull is displaced before its requester attaches"),
     level_text=("Fault enumeration over the camera's behaviour at every handshake step against the real pull client and the real service: "
                 "requester outcome (404 / orderly close / media), registry, RTSP connection counter, camera-side connection state and the "
                 "pull goroutine ledger decide; a handshake goroutine parked in a network read long after NetTimeout is a violation"),
